@@ -1054,11 +1054,14 @@ static int state_check_process(struct snapraid_state* state, int fix, struct sna
 
 			/* if the file is closed or different than the current one */
 			if (handle[j].file == 0 || handle[j].file != file) {
+				/* keep the name for the error message, as a failed close clears the handle */
+				const char* close_sub = handle[j].file ? handle[j].file->sub : file->sub;
+
 				/* close the old one, if any */
 				ret = handle_close(&handle[j]);
 				if (ret == -1) {
 					/* LCOV_EXCL_START */
-					log_tag("error:%u:%s:%s: Close error. %s\n", i, disk->name, esc_tag(handle[j].file->sub, esc_buffer), strerror(errno));
+					log_tag("error:%u:%s:%s: Close error. %s\n", i, disk->name, esc_tag(close_sub, esc_buffer), strerror(errno));
 					log_fatal("DANGER! Unexpected close error in a data disk.\n");
 					log_fatal("Stopping at block %u\n", i);
 					++unrecoverable_error;
